@@ -72,7 +72,7 @@ class C04(TraceCheck):
     rule = ("histories of region assignments on a real FSArray: shapes 0..3 x 0..4 (constructor formatting none / bg), forms "
             "a[r0:r1, c0:c1] = block, a[r, c] = [x], a[r0:r1] = block, regions inside, straddling and beyond the height "
             "(r in 0..rows+2, c in 0..cols) and hanging over the right edge (column stops up to 2*cols+2), bounds also written as negative numbers and omitted (None), blocks with the right and wrong number of rows, rows shorter/equal/longer than the "
-            "region, empty rows, given as list of str/FmtStr, as FSArray or as the target array itself; after every step the full row list is recorded; "
+            "region, empty rows, given as list of str/FmtStr, as FSArray or as the target array itself; rows holding zero-width characters with every region boundary around them; after every step the full row list is recorded; "
             "region and row reads are interleaved; fsarray(strings, width) construction. Sources: TLC-generated behaviours "
             "(MC_FSArray GenSpec) + all single assignments on 1x2/2x2/2x3 arrays pre-filled two ways + seeded random "
             "histories. distinct_nontrivial = distinct (shape, region, block row lengths, outcome) assignments")
@@ -153,6 +153,17 @@ class C04(TraceCheck):
                                     {"k": "assign", "r0": r0, "r1": r0 + 1, "c0": c0, "c1": c1, "block": b,
                                      "bk": "fsarray" if (c0 + c1) % 5 == 0 else "list", "form": "slice2"},
                                     {"k": "read", "r0": 0, "r1": h + 2, "c0": 0, "c1": w + 2}]}
+        # rows that hold zero-width characters (a combining mark after its letter, ZERO WIDTH SPACE, ZWJ): a cell is a cell -
+        # every region boundary, also the ones right before and right after a mark
+        marked = {"k": "f", "v": [[[101, 769, 120], [2, 0, 0, 0, 0, 0, 0, 0]], [[8203, 121, 8205], [0] * 8]]}
+        for w in (6, 7):
+            pre = [{"k": "assign", "r0": 0, "r1": 2, "c0": 0, "c1": 6, "block": [marked, marked], "bk": "list", "form": "slice2"}]
+            for c0 in range(0, 6):
+                for c1 in range(c0 + 1, 7):
+                    for blk in ("Z" * (c1 - c0), "Z" * max(0, c1 - c0 - 1)):
+                        yield {"h": 2, "w": w, "fmt": (c0 + c1) % 2, "steps": pre + [
+                            {"k": "assign", "r0": 0, "r1": 1, "c0": c0, "c1": c1, "block": [srow(blk)], "bk": "list", "form": "slice2"},
+                            {"k": "read", "r0": 0, "r1": 2, "c0": 0, "c1": w}, {"k": "read", "r0": 0, "r1": 1, "c0": c1, "c1": w}]}
         # the array pasted into itself: at its top, straddling its last row, below it - with the right and a wrong height
         for (h, w) in [(1, 2), (2, 3), (2, 2)]:
             for prefill in ("full", "short"):
